@@ -426,9 +426,9 @@ def canary(chk: Check, tables):
     probe = Check(PID, chk.tier, chk.seed)
     probe.known = []
     swapped = dict(tables)
-    swapped[("STDP", 1, -1)] = tables[("STDP", -1, 1)]
+    swapped[("STDP", -1, 1)] = tables[("STDP", 1, -1)]      # anti-Hebbian judged with the Hebbian routing
     rng = random.Random(chk.seed)
-    check_match_kind(probe, swapped, "STDP", "sum", histories(rng, 4)[:1], [(1, -1)], False)
+    check_match_kind(probe, swapped, "STDP", "sum", histories(rng, 4)[:1], [(-1, 1)], False)
     if not any(v["signature"]["clause"] in ("pos-part-value", "neg-part-value") for v in probe.violations):
         raise MachineryFailure("canary: a run judged against a deviating routing table was accepted")
     # remove the replay files the probe wrote
